@@ -25,6 +25,33 @@ fn rewrite(dict: &Dict, text: &str) -> Result<Result<String, AErr>, crate::commo
     })
 }
 
+/// the same on a buffer that was used before: first for an input whose normalised form is too long (where the table
+/// lets U+FDFA expand; the plugin then returns an error half-way), or for a long input that is accepted
+fn rewrite_on_used_buffer(dict: &Dict, earlier: &str, text: &str) -> Result<Result<String, AErr>, crate::common::panics::PanicInfo> {
+    catch(|| {
+        let mut buf = InputBuffer::new();
+        buf.reset().push_str(earlier);
+        if buf.start_build().is_ok() {
+            for p in dict.input_text_plugins() {
+                if p.rewrite(&mut buf).is_err() {
+                    break;
+                }
+            }
+        }
+        buf.reset().push_str(text);
+        buf.start_build().map_err(|e| classify_err(&e))?;
+        for p in dict.input_text_plugins() {
+            p.rewrite(&mut buf).map_err(|e| classify_err(&e))?;
+        }
+        Ok(buf.current().to_string())
+    })
+}
+
+fn earlier_inputs() -> &'static [String; 2] {
+    static E: std::sync::OnceLock<[String; 2]> = std::sync::OnceLock::new();
+    E.get_or_init(|| ["\u{fdfa}".repeat(2000), "Ａｶﾞ㍿ーー漢(カ)".repeat(40)])
+}
+
 fn world_with_input(name: &str, rewrite_def: Option<String>, input: Value) -> Arc<World> {
     let mut s = spec_min(name);
     if let Some(r) = rewrite_def {
@@ -126,6 +153,8 @@ pub struct NormTree {
     pub alpha: Vec<Sym>,
     pub bounds: TreeBounds,
     pub reference: Box<dyn Fn(&str) -> String + Send + Sync>,
+    /// texts of up to this many symbols are also normalised on a buffer that was used for another input before
+    pub used_buffer_len: usize,
 }
 
 impl Space for NormTree {
@@ -159,6 +188,24 @@ impl Space for NormTree {
                         o.nontrivial = true;
                     }
                     o.observe(&obs);
+                }
+            }
+            if s.len() <= self.used_buffer_len && !s.is_empty() {
+                for earlier in earlier_inputs().iter() {
+                    o.evaluations += 1;
+                    match rewrite_on_used_buffer(&w.dict, earlier, &text) {
+                        Err(p) => o.fail(Failure::panic(&format!("rewrite {:?} on a buffer used before", text), &p)),
+                        Ok(Err(e)) => o.fail(Failure::new("rewrite-error", format!("{:?} on a buffer used before: {:?}", text, e))),
+                        Ok(Ok(obs)) => {
+                            if obs != expected {
+                                let short: String = obs.chars().take(60).collect();
+                                o.fail(Failure::new(
+                                    "normalised-text-differs",
+                                    format!("[{} load {}] input {:?}, on a buffer that was reset after an input of {} bytes ({:?}...), normalised to {:?} ({} bytes), reference {:?}", self.label, wi, text, earlier.len(), earlier.chars().take(3).collect::<String>(), short, obs.len(), expected),
+                                ));
+                            }
+                        }
+                    }
                 }
             }
         }
@@ -229,7 +276,7 @@ pub fn main(tier: Tier, replay: Option<String>) -> i32 {
         let bounds = tier.pick(TreeBounds { full_len: 4, ext_len: 7, max_special: 2 }, TreeBounds { full_len: 6, ext_len: 9, max_special: 2 });
         let b = bounds.to_json();
         jobs.push(job(
-            NormTree { label: format!("table-{}", name), worlds: vec![w1, w2], alpha: alpha.clone(), bounds, reference: Box::new(move |s| table.normalize(s)) },
+            NormTree { label: format!("table-{}", name), worlds: vec![w1, w2], alpha: alpha.clone(), bounds, reference: Box::new(move |s| table.normalize(s)), used_buffer_len: 3 },
             Strategy::Dfs,
             Some(tier.pick(40, 1200)),
             b,
@@ -251,6 +298,7 @@ pub fn main(tier: Tier, replay: Option<String>) -> i32 {
                     alpha: syms(&["ー", "〜", "-", "a", "ア"], &[]),
                     bounds,
                     reference: Box::new(move |s| ref_prolonged(&mc, &repl, s)),
+                    used_buffer_len: 3,
                 },
                 Strategy::Dfs,
                 Some(tier.pick(30, 900)),
@@ -286,12 +334,60 @@ pub fn main(tier: Tier, replay: Option<String>) -> i32 {
                             s,
                         )
                     }),
+                    used_buffer_len: 3,
                 },
                 Strategy::Dfs,
                 Some(tier.pick(30, 900)),
                 b,
             ));
         }
+    }
+    // (5) the three plugins in one configuration, in the shipped order and in the reverse one: the result is the
+    // composition of the three specified functions (each plugin has to read what the one before it wrote)
+    for (label, order) in [("default-prolonged-yomigana", [0usize, 1, 2]), ("prolonged-yomigana-default", [1, 2, 0]), ("yomigana-default-prolonged", [2, 0, 1])] {
+        let marks = ["ー", "-", "⁓", "〜", "〰"];
+        let plugin = |k: usize| match k {
+            0 => default_input_text(),
+            1 => prolonged(&marks, "ー"),
+            _ => yomigana(&["(", "（"], &[")", "）"], 4),
+        };
+        let w = world_with_input(&format!("W-c07-pipeline-{}", label), Some(shipped("rewrite.def")), json!([plugin(order[0]), plugin(order[1]), plugin(order[2])]));
+        let table = RewriteTable::parse(&shipped("rewrite.def"));
+        let cats = w.dict.grammar().character_category.clone();
+        let mc: Vec<char> = marks.iter().map(|s| s.chars().next().unwrap()).collect();
+        let bounds = tier.pick(TreeBounds { full_len: 4, ext_len: 6, max_special: 2 }, TreeBounds { full_len: 5, ext_len: 8, max_special: 2 });
+        let b = json!({"tree": bounds.to_json(), "plugin_order": label});
+        jobs.push(job(
+            NormTree {
+                label: format!("pipeline-{}", label),
+                worlds: vec![w],
+                // half-width and full-width forms of the marks and brackets become marks / brackets only through the table-driven plugin
+                alpha: syms(&["ｰ", "ア", "－"], &["ー", "a", "Ａ", "漢", "(", "カ", ")", "（", "）", "ｶ", "ﾞ", "㍿", "〜"]),
+                bounds,
+                reference: Box::new(move |s| {
+                    let mut t = s.to_string();
+                    for &k in order.iter() {
+                        t = match k {
+                            0 => table.normalize(&t),
+                            1 => ref_prolonged(&mc, "ー", &t),
+                            _ => ref_yomigana(
+                                &|c| cats.get_category_types(c).intersects(CategoryType::KANJI),
+                                &|c| cats.get_category_types(c).intersects(CategoryType::HIRAGANA | CategoryType::KATAKANA),
+                                &['(', '（'],
+                                &[')', '）'],
+                                4,
+                                &t,
+                            ),
+                        };
+                    }
+                    t
+                }),
+                used_buffer_len: 3,
+            },
+            Strategy::Dfs,
+            Some(tier.pick(40, 900)),
+            b,
+        ));
     }
     drive(rep, jobs, replay)
 }
